@@ -96,11 +96,12 @@ class Layout:
     call_space: str = ''           # between a function name and its opening parenthesis (Python allows it)
     newline: str = '\n'            # line separator: \n, \r\n or \r (str.splitlines treats them alike)
     final_newline: bool = False    # the script ends with a line separator
+    comment_sep: str = '  # '      # how a trailing comment is attached: after blanks, or glued to the last token ('#')
     inner_blank: str = ''          # inside a wrapped (parenthesised, multi-line) right-hand side: '' / 'blank' / 'spaces' / 'comment' line between two continuation lines
 
     @staticmethod
     def random(rnd: random.Random) -> 'Layout':
-        return Layout(newline=rnd.choice(['\n', '\n', '\r\n', '\r']), final_newline=rnd.random() < 0.3, inner_blank=rnd.choice(['', '', 'blank', 'spaces', 'comment']),
+        return Layout(newline=rnd.choice(['\n', '\n', '\r\n', '\r']), final_newline=rnd.random() < 0.3, inner_blank=rnd.choice(['', '', 'blank', 'spaces', 'comment']), comment_sep=rnd.choice(['  # ', '  # ', '#', ' #', '\t# ']),
                       op_space=rnd.choice([' ', '', '  ', '\t']), eq_space=rnd.choice([' ', '', '   ', '\t']),
                       idx_inner=rnd.choice(['', ' ']), brace_inner=rnd.choice(['', ' ', '  ']), plus_sign=rnd.random() < 0.5,
                       zero_index=rnd.random() < 0.3, wrap_rhs=rnd.random() < 0.3, comment=rnd.random() < 0.3,
@@ -189,7 +190,7 @@ def render_eq(eq: Eq, lay: Layout = PLAIN) -> str:
         rhs = render(eq.rhs, lay)
     s = f'{lhs}{lay.eq_space}={lay.eq_space}{rhs}'
     if lay.comment:
-        s += '  # ' + 'note #1) it\'s a "quoted" `tick` comment = {x} <y> [1] Zq9[-14] + Zq8[+13] (see # more'
+        s += lay.comment_sep + 'note #1) it\'s a "quoted" `tick` comment = {x} <y> [1] Zq9[-14] + Zq8[+13] (see # more'
     return s
 
 
